@@ -114,6 +114,13 @@ def check(P: Project, R: Report) -> None:
     for k, v in W.binding.items():
         if W.cancel_check is not None and W.cancel_check.name in ast.unparse(v):
             chk_param = k
+        elif W.cancel_check is not None and isinstance(v, ast.Name):
+            # chosen into a local first: `check = None` / `check = check_and_send_cancellation` on the two arms of a test
+            from ..model import local_values as _lv
+
+            vals = [x for x in _lv(send.node).get(v.id, []) if x is not None]
+            if vals and any(W.cancel_check.name in ast.unparse(x) for x in vals) and all(W.cancel_check.name in ast.unparse(x) or (isinstance(x, ast.Constant) and x.value is None) for x in vals):
+                chk_param = k
     R.need(chk_param is not None, "anchor: the cancellation check is not passed to the wait")
     # one iteration = the loop body analysed on its own (event sequences are exact within an iteration)
     def iter_ev(call, st, an):
@@ -293,7 +300,7 @@ def check(P: Project, R: Report) -> None:
         for st in states:
             if any(e.startswith("callback:") for e in st.events):
                 after[kind] += 1
-    R.ob("R5", "after the callback the loop continues", after["cont"] > 0 and after["ret"] == 0, f"{wrel}:{cb.lineno}", f"exits after a callback: {after}")
+    R.ob("R5", "after the callback the loop continues", after["cont"] + after["normal"] > 0 and after["ret"] == 0, f"{wrel}:{cb.lineno}", f"exits after a callback: {after}")
     # wrapped by a handler for Exception that does not raise
     enclosing = None
     for t in walk_local(W.loop):
